@@ -129,7 +129,7 @@ impl System for LineSys {
             obs: (key >> 64) as u64,
             nontrivial: view != SpecHeaders::default(),
             facts: 0,
-            impl_facts: 0,
+            impl_facts: 0, aux: 0,
         }
     }
     fn trace(&self, path: &[u16]) -> Value {
